@@ -1,10 +1,16 @@
 (** * DhpProofsC03b: the DHP half of C03 over every interleaving.
 
-    [dhp_dispose_at_most_once_nodetach]: in every configuration reachable from the initial one by any sequence of
-    thread choices (any number of threads; any client programs over attach / Guard / assign / clear / protect /
-    publish / retire / scan / wait), if the client hands every object to retire() at most once then the disposer
-    is called at most once per object.  Conditional on [flbad = false] (the embedded free lists never handed out a
-    block that was not in them: property C21; the falsifying event is visible in the trace). *)
+    [dhp_dispose_at_most_once]: in every configuration reachable from the initial one by any sequence of thread
+    choices (any number of threads; any client programs over attach / detach / Guard / assign / clear / protect /
+    publish / retire / scan / wait; any block capacity >= 4; any initial guard count), if the client hands every
+    object to retire() at most once then the disposer is called at most once per object: through every scan,
+    every extension of a retired array, every detach (which cuts the array's unused blocks off or tears it down)
+    and every help_scan that moves the retired pointers of an orphaned record into the helper's array.
+    Conditional on [flbad = false]: the embedded cds::intrusive::FreeList of retired blocks never handed out a
+    block that was not in it (property C21; the event that would falsify it is visible in the trace).
+
+    [dhp_dispose_at_most_once_nodetach]: the same for programs that never detach, without the hypothesis
+    [c_oldtail = false] (the stale list_tail_ of free_thread_data before commit cf24f31 is then never reached). *)
 From Coq Require Import ZArith NArith List String Bool Lia PeanoNat.
 From LV Require Import Base.Conc Base.Events Model.DhpLang Model.Dhp Proofs.DhpBase Proofs.DhpHist
   Proofs.DhpLangProofs Proofs.DhpInvB Proofs.DhpQuietB Proofs.DhpQuietB2 Proofs.DhpRulesB Proofs.DhpMainC Proofs.DhpProofsC02 Proofs.DhpProofsC03.
@@ -25,7 +31,7 @@ Proof.
     + split; [constructor|intros p []].
 Qed.
 
-Lemma cfg_ok_initB fuel c ths : 4 <= c_RB c -> c_old c = false -> Forall (Forall nodetach) ths ->
+Lemma cfg_ok_initB fuel c ths : 4 <= c_RB c -> c_old c = false -> Forall (Forall (okop c)) ths ->
   Conc.cfg_ok viewB (InvB c) (init_cfg fuel c ths).
 Proof.
   intros H4 Ho Hnd. exists auxb0. split.
@@ -37,6 +43,28 @@ Proof.
     apply nth_error_In in E. apply in_combine_r in E. rewrite Forall_forall in Hnd. apply Hnd. exact E.
 Qed.
 
+Lemma at_most_once_from_ok fuel c ths conf : 4 <= c_RB c -> c_old c = false -> Forall (Forall (okop c)) ths ->
+  Conc.reach (init_cfg fuel c ths) conf ->
+  flbad (hist (Conc.trace conf)) = false ->
+  NoDup (flat_map (fun e => DhpProofsC03.retired_ev (snd e)) (Conc.trace conf)) ->
+  NoDup (disposed_of (Conc.trace conf)).
+Proof.
+  intros H4 Ho Hnd Hr Hfl Hn.
+  destruct (Conc.reach_Inv (cfg_ok_initB fuel c ths H4 Ho Hnd) Hr) as (a & Hi).
+  destruct (Hi Hfl Hn) as [_ _ _ [_ _ _ W4 _]]. exact (proj1 W4).
+Qed.
+
+Theorem dhp_dispose_at_most_once : forall fuel c ths conf,
+  4 <= c_RB c -> c_old c = false -> c_oldtail c = false ->
+  Conc.reach (init_cfg fuel c ths) conf ->
+  flbad (hist (Conc.trace conf)) = false ->
+  NoDup (flat_map (fun e => DhpProofsC03.retired_ev (snd e)) (Conc.trace conf)) ->
+  NoDup (disposed_of (Conc.trace conf)).
+Proof.
+  intros fuel c ths conf H4 Ho Ht. apply at_most_once_from_ok; auto.
+  apply Forall_forall. intros os _. apply Forall_forall. intros o _. right. exact Ht.
+Qed.
+
 Theorem dhp_dispose_at_most_once_nodetach : forall fuel c ths conf,
   4 <= c_RB c -> c_old c = false -> Forall (Forall nodetach) ths ->
   Conc.reach (init_cfg fuel c ths) conf ->
@@ -44,7 +72,20 @@ Theorem dhp_dispose_at_most_once_nodetach : forall fuel c ths conf,
   NoDup (flat_map (fun e => DhpProofsC03.retired_ev (snd e)) (Conc.trace conf)) ->
   NoDup (disposed_of (Conc.trace conf)).
 Proof.
-  intros fuel c ths conf H4 Ho Hnd Hr Hfl Hn.
+  intros fuel c ths conf H4 Ho Hnd. apply at_most_once_from_ok; auto.
+  eapply Forall_impl; [|exact Hnd]. intros os H. eapply Forall_impl; [|exact H]. intros o Ho'. left. exact Ho'.
+Qed.
+
+(** every disposed object had been handed to retire() *)
+Theorem dhp_disposed_were_retired : forall fuel c ths conf,
+  4 <= c_RB c -> c_old c = false -> c_oldtail c = false ->
+  Conc.reach (init_cfg fuel c ths) conf ->
+  flbad (hist (Conc.trace conf)) = false ->
+  NoDup (flat_map (fun e => DhpProofsC03.retired_ev (snd e)) (Conc.trace conf)) ->
+  incl (disposed_of (Conc.trace conf)) (flat_map (fun e => DhpProofsC03.retired_ev (snd e)) (Conc.trace conf)).
+Proof.
+  intros fuel c ths conf H4 Ho Ht Hr Hfl Hn.
+  assert (Hnd : Forall (Forall (okop c)) ths) by (apply Forall_forall; intros os _; apply Forall_forall; intros o _; right; exact Ht).
   destruct (Conc.reach_Inv (cfg_ok_initB fuel c ths H4 Ho Hnd) Hr) as (a & Hi).
-  destruct (Hi Hfl Hn) as [_ _ _ [_ _ _ W4 _]]. exact (proj1 W4).
+  destruct (Hi Hfl Hn) as [_ _ _ [_ _ _ W4 W5]]. intros p Hp. apply W5. rewrite (proj2 W4 p Hp). discriminate.
 Qed.
